@@ -31,7 +31,16 @@ func (c12) Rule() string {
 	return "histories of 3-12 requests over 4 query texts (3 plannable, 1 invalid) and per-history consistent keys (the sha256 of the text or a client-chosen key), each request being {text only, text+key, key only}, with idle periods longer than 4x the TTL (150 ms) between some requests; a cached gateway (AutomaticQueryPlanCache) is driven through GetPlans+Execute next to an uncached twin over the same services; every response must be what the Lean cache model says for the measured history (plan of which text / planner error / PersistedQueryNotFound) and, when a plan, the data must equal the twin's for that text; NotFound must contact no service; a request without key must come back keyed by the sha256 of its text; every third case additionally fires 8 concurrent identical misses and then a key-only hit (race detector on); histories with a gap in the ambiguous zone (TTL/5 .. 4xTTL) are discarded; non-trivial = at least one key-only request; distinct = distinct history"
 }
 
-var cacheTexts = []string{`{ me { firstName lastName } }`, `{ allUsers { firstName nick } }`, `{ topPhoto { url likes } }`, `{ nope }`}
+var cacheTexts = []string{`{ me { firstName lastName } }`, `{ allUsers { firstName nick } }`, `{ topPhoto { url likes } }`, `{ nope }`,
+	// two documents that differ in white space only, where it matters: a line break ends a comment
+	"{ me { firstName # and\n lastName } }", "{ me { firstName # and lastName\n } }"}
+
+// NearTexts: documents that differ only in significant white space (the end of a comment, the inside of a string)
+var NearTexts = [][2]string{
+	{"{ me { firstName # and\n lastName } }", "{ me { firstName # and lastName\n } }"},
+	{"{ a: user(id: \"u1\") { firstName } b: user(id: \"u 1\") { firstName } }", "{ a: user(id: \"u1\") { firstName } b: user(id: \"u  1\") { firstName } }"},
+	{"{ allUsers { nick # x\n lastName } }", "{ allUsers { nick # x lastName\n } }"},
+}
 
 func shaHex(s string) string {
 	h := sha256.Sum256([]byte(s))
